@@ -524,7 +524,7 @@ func (vc *VC) evalTerm(env *Env, e CExpr) Term {
 			case *types.Pointer, *types.Map, *types.Interface, *types.Chan, *types.Slice:
 				ref := l.Ref
 				vc.assumeAllocated(env.cur, l.T, sel(h.S, ref))
-				vc.closedFact(env.cur, l.Key, l.T, func(b string) string { return sel(b, ref) })
+				vc.closedFact(env.cur, l.Key, l.T, ref, func(b string) string { return sel(b, ref) })
 			}
 		}
 		return Term{S: sel(h.S, l.Ref), Sort: vc.sortOf(l.T), T: l.T}
